@@ -15,6 +15,48 @@ def simpleB (m : Mappings) (ns : Nat) : Bool :=
     | some (some _), _ => false
     | _, _ => true
 
+/-- hypothesis `KeysConsistent` of `Thm.C11.extend_nested` / `contract_extend`: every class is filed under its source name -/
+def keysConsistentB (m : Mappings) : Bool :=
+  m.classes.all fun (k, c) => c.names[0]? == some (some k)
+
+/-- some outer class (by source name) of `name` is not in the set or has no name in the namespace:
+the hypothesis of `Thm.C11.extend_fails_missing_outer`, followed along the whole chain -/
+def chainMissing (m : Mappings) (ns : Nat) : Nat → JStr → Bool
+  | 0, _ => false
+  | fuel + 1, name =>
+    match split name with
+    | none => false
+    | some (p, _) => (getClassName m p ns).isNone || chainMissing m ns fuel p
+
+/-- the property says that extension is an error here (`extend_first_namespace_fails`, `extend_fails_missing_outer`) -/
+def specErr (m : Mappings) (ns : Nat) : Bool :=
+  ns == 0 || m.classes.any fun (k, c) =>
+    match c.names[ns]? with
+    | some (some _) => chainMissing m ns (k.length + 1) k
+    | _ => false
+
+/-- the conclusions of `extend_frame`, `extend_toplevel` and `extend_nested` evaluated on a result `m'`:
+everything but the names of namespace `ns` is untouched, a top-level class keeps its name, a nested class gets
+the NEW name of its outer class (looked up by source name in the result), `$`, its own old name -/
+def extendSpecOk (m m' : Mappings) (ns : Nat) : Bool :=
+  m'.ns == m.ns && m'.doc == m.doc && m'.classes.length == m.classes.length &&
+  (List.zip m.classes m'.classes).all fun ((k, c), (k', c')) =>
+    k' == k && c'.doc == c.doc && c'.fields == c.fields && c'.methods == c.methods &&
+    c'.names.length == c.names.length &&
+    (List.range c.names.length).all (fun j => j == ns || c'.names[j]? == c.names[j]?) &&
+    (match c.names[ns]? with
+     | some (some b) =>
+       (match split k with
+        | none => c'.names[ns]? == some (some b)
+        | some (p, _) =>
+          match AList.lookup p m'.classes with
+          | some cp' =>
+            (match cp'.names[ns]? with
+             | some (some pn) => c'.names[ns]? == some (some (join pn b))
+             | _ => false)
+          | none => false)
+     | o => c'.names[ns]? == o)
+
 def handleC11 (op : String) (args : List Sexp) : Option Ans :=
   match op, args with
   | "extend", [m, ns] => do
@@ -34,13 +76,26 @@ def handleC11 (op : String) (args : List Sexp) : Option Ans :=
     pure (match m.getNamespace nsn with
       | none => .ok (tag "out-of-domain")
       | some ns =>
-        if !simpleB m ns then .ok (tag "out-of-domain") else
+        if !keysConsistentB m || (ns == 0 && m.classes.isEmpty) || specErr m ns || !simpleB m ns then .ok (tag "out-of-domain") else
         match extend m nsn with
-        | none => .ok (tag "out-of-domain")
+        | none => .ok (list [tag "fail", tag "extend_err"])
         | some m' =>
           match contract m' nsn with
           | some m'' => if m'' == m then .ok (tag "pass") else .ok (list [tag "fail", tag "differs"])
           | none => .ok (list [tag "fail", tag "contract_err"]))
+  | "oracle-extend-spec", [m, ns] => do
+    let m ← mappingsFrom m; let nsn ← toJStr? ns
+    let failed := (extend m nsn).isNone
+    pure (
+      if !keysConsistentB m then .ok (tag "out-of-domain") else
+      match m.getNamespace nsn with
+      | none => if failed then .ok (tag "pass") else .ok (list [tag "fail", tag "should_err"])
+      | some ns =>
+        if ns == 0 && m.classes.isEmpty then .ok (tag "out-of-domain") else
+        if specErr m ns then (if failed then .ok (tag "pass") else .ok (list [tag "fail", tag "should_err"])) else
+        match extend m nsn with
+        | none => .ok (list [tag "fail", tag "err"])
+        | some m' => if extendSpecOk m m' ns then .ok (tag "pass") else .ok (list [tag "fail", tag "differs"]))
   | _, _ => none
 
 def main : IO Unit := Driver.run handleC11
